@@ -12,7 +12,9 @@ import (
 	"fmt"
 	"math/big"
 	"os"
+	"runtime"
 	"strconv"
+	"time"
 )
 
 type ufEntry struct {
@@ -235,6 +237,28 @@ func MayPanic(f func()) (panicked bool) {
 	}()
 	f()
 	return false
+}
+
+// WaitUntil: under the engine all other goroutines run until they block and
+// cond must then hold; natively it spins (up to 5 s) until cond holds.
+func WaitUntil(cond func() bool, what string) {
+	deadline := time.Now().Add(5 * time.Second)
+	for !cond() {
+		if time.Now().After(deadline) {
+			panic("zzverif.WaitUntil timed out: " + what)
+		}
+		runtime.Gosched()
+		time.Sleep(200 * time.Microsecond)
+	}
+}
+
+// Yield lets other goroutines run (engine: until all are blocked; natively a
+// short sleep — use WaitUntil when a condition can be named).
+func Yield() {
+	for i := 0; i < 20; i++ {
+		runtime.Gosched()
+		time.Sleep(200 * time.Microsecond)
+	}
 }
 
 // Unwind sets the loop unwinding bound for symbolic branches (engine only).
